@@ -2,12 +2,12 @@
 import json
 import random
 
-from .. import casing, common as c, corpus, l2, translate, namebins
+from .. import casing, common as c, corpus, l2, translate, namebins, rs2lean
 
 THEOREMS = [("Sylvia.Thm.C03", "C03." + t) for t in
             ["at_most_one", "wrapper_accepts_encoded", "wrapper_ok_sound", "unknown_lists_all", "not_single_key_rejected"]] + \
            [("Sylvia.Thm.C03Domain", "C03." + t) for t in ["wrapper_iff_on_domain", "wrapper_accepts_iff_some_part", "inDomainB_sound"]] + \
-           [("Sylvia.Thm.C05Gen", "C05.parts_faithful_closed"), ("Sylvia.Thm.Obl.Published", "Obl.published_rule_is_wire_rule"),
+           [("Sylvia.Thm.C05Gen", "C05.parts_faithful_closed"), ("Sylvia.Thm.PublishedFn", "PublishedFn.serde_snake_case_eq"), ("Sylvia.Thm.Obl.Published", "Obl.published_rule_is_wire_rule"),
             ("Sylvia.Lemmas.ValuePass", "Sylvia.Serde.normalize_canon"), ("Sylvia.Lemmas.ValuePass", "Sylvia.Serde.decodeFields_sorted")] + \
            [("Sylvia.Thm.Obl.Wrapper", "Obl.wrapper_forms"), ("Sylvia.Thm.Obl.Complete.C03", "Obl.extraction_complete_C03")]
 
@@ -47,6 +47,11 @@ def run(ctx):
     ctx.assumptions += ["serde derive + serde-json-wasm + serde-cw-value are modelled (Model/Serde.lean), validated by the de/dew streams on every run",
                         "argument types restricted to the universe of Serde.VTy"]
     translate.regenerate()
+    # function translator: serde_snake_case of sylvia-derive (the rule behind the published name lists) -> Extracted/CasingFns.lean
+    casing_problems = rs2lean.regenerate("casing")
+    ctx.cov["function_translator_casing"] = {"source": "sylvia-derive/src/types/msg_variant.rs::serde_snake_case", "problems": casing_problems}
+    if casing_problems:
+        ctx.obligation_failed("function-translator(casing)", "; ".join(casing_problems)[:1500])
     if THEOREMS:
         mods = sorted({m for m, _ in THEOREMS})
         c.prove(ctx, mods, THEOREMS)
